@@ -7,11 +7,11 @@ sys.path.insert(0, '/verif/lib')
 import mkprops
 C = '/verif/coq/'
 HDR5 = '''(** C05 property theorems%s: statements only, each closed by [exact]; proofs are in C05/C05_Proofs.v, C05/C05_Wave2.v,
-    C05/C05_Fit.v (shared lemmas in C05/C05_Rot.v, C05/C05_Jet.v); the catalogue is C05/C05_Model.v, written from the public
+    C05/C05_Fit.v, C05/C05_Partial.v (shared lemmas in C05/C05_Rot.v, C05/C05_Jet.v); the catalogue is C05/C05_Model.v, written from the public
     headers MobilizedBody_*.h; the Euler / quaternion N blocks come from Gen/rot_gen.v (regenerated from Rotation.h). *)
 From Coq Require Import ZArith Reals List.
 From Coquelicot Require Import Coquelicot.
-Require Import Num Vec rot_gen C28_Defs C28_Proofs C05_Model C05_Rot C05_Jet C05_Proofs C05_Wave2 C05_Fit.
+Require Import Num Vec rot_gen C28_Defs C28_Proofs C05_Model C05_Rot C05_Jet C05_Proofs C05_Wave2 C05_Fit C05_Partial.
 Local Open Scope R_scope.
 '''
 HDR3 = '''(** C03 property theorems%s: statements only, each closed by [exact]; proofs are in C03/C03_Proofs.v (tree level, N relations),
@@ -36,6 +36,7 @@ write('Properties_C05.v', HDR5 % '', [b for b in p if isA(b.split()[1])])
 write('Properties_C05_jets.v', HDR5 % ' (part jets)', [b for b in p if not isA(b.split()[1])])
 write('Properties_C05_wave2.v', HDR5 % ' (part wave2)', blocks('C05', C + 'C05/C05_Wave2.v'))
 write('Properties_C05_fit.v', HDR5 % ' (part fit)', blocks('C05', C + 'C05/C05_Fit.v', ('one_plus_sq', 'Ratan2_scale', 'zangle_RotZ', 'npi_is_PI')))
+write('Properties_C05_partial.v', HDR5 % ' (part partial fits)', blocks('C05', C + 'C05/C05_Partial.v', ('half_sgn',)))
 t = blocks('C03', C + 'C03/C03_Proofs.v', ('mulv_assoc', 'mulv_add', 'mulv_0', 'mulv_I', 'dV_affine'))
 write('Properties_C03.v', HDR3 % '', [b.replace('C03_C03_joint_exists', 'C03_joint_exists_ex') for b in t])
 isjet = lambda n: n.endswith('_jet') or '_jet_' in n
